@@ -76,6 +76,50 @@ CHECKS.update({
         note="Trusts the abstract interpreter's folding of tests under a total atom assignment; atoms are the rules' boolean arguments and data-dependent comparisons.",
     ),
 })
+CHECKS.update({
+    "C01": dict(
+        technique="abstract interpretation of return kinds per interval (first-row dtype clause) + deny-list taint analysis of whole-column functions (positions, whole-column reductions, binary search on unsorted columns, label alignment)",
+        text="Two necessary conditions of row-order independence are decided for all rules, dates and populations: (a) no scalar rule can return two different numeric kinds (numpy.vectorize types the whole column from the first row, so a mixed rule makes values depend on which row comes first); (b) in every function that receives whole columns, loop positions, whole-column reductions and order-sensitive operations never flow into a non-id result, no binary search runs on a raw column, and the interface assembles results positionally, not by index label. Order-independence of the partition induced by the id scans is not decided.",
+        ref="DESIGN.md §4 C01",
+        note="Deny-list rules: a construct not on the list is not reported; numpy_groupies numerics are third-party.",
+    ),
+    "C02": dict(
+        technique="purity lint of all rule syntax trees + wrapper-shape check + whole-column taint analysis",
+        text="Separability needs every scalar rule to be a function of its own row only and every cross-row data flow to go through id keys. Decided: all ~400 rules are pure (no shared state, I/O, clock), every loaded function is evaluated through the row-wise numpy.vectorize wrapper unless marked whole-column, and whole-column functions do not let positions or whole-column reductions reach their results. Injectivity of the id arithmetic (fg_id*100+k) is not decided.",
+        ref="DESIGN.md §4 C02",
+        note="Deny-list purity rules; unknown pure-looking calls are listed, not reported.",
+    ),
+    "C05": dict(
+        technique="annotation resolution for every overridable node; kind analysis (declared type can hold every returned value); merge-order and override-split structure; must-warn check",
+        text="Feeding a computed column back must not raise, be mis-typed or go unannounced: every overridable node declares a type the converter supports (and annotations are real types, not strings); no rule returns a kind wider than declared (otherwise the lossless-conversion check rejects the system's own output); functions are merged pointer aggregates < time conversions < rules < group aggregates < groupings and overridden iff the name is a data column; a non-empty override set always reaches the overlap warning. Equality of the two runs' numbers is not decided.",
+        ref="DESIGN.md §4 C05",
+        note="Kinds as in C03; structure checks are anchored on functions the test-suite imports by name.",
+    ),
+    "C10": dict(
+        technique="writer/reader key-table agreement (YAML, loader, wrapper); per-interval spec-to-rule matching with atom enumeration for pass-through rules; structural check of the rounding wrapper; metadata dataflow of derived functions; truth table of the missing-spec guard",
+        text="Decides the structural clauses of statutory rounding for every date: every spec key the wrapper reads and the YAML provides is transferred by the loader; every dated spec is valid; wherever a spec is in force the implementation active then is rounded with that key or passes a same-grid column through; the wrapper maps up/down/nearest to ceil/floor/round of out/base, adds the offset once and transforms the value no further; time-converted and aggregated functions cannot inherit the rounding key; a rule marked for rounding without a spec raises. The rounding error bound itself is floating-point and not decided.",
+        ref="DESIGN.md §4 C10",
+        note="Statutory values/dates of the specs themselves are not decidable from the source.",
+    ),
+    "C11": dict(
+        technique="sibling agreement over the 14 spec-kind branches and 14 backend dispatchers (resolved callee, role-ordered arguments, import aliases); spec validity per interval; layer-order evaluation of the spec dictionaries; constant folding of the result-type rule",
+        text="The copy-paste structure that wires aggregation kinds to kernels is decided exhaustively: branch k of both factories calls grouped_k / k_by_p_id with its own parameters in the callee's role order and the documented renaming; every dispatcher calls the same-named jax/numpy kernel with its parameters in order; built-in specs are valid and use implemented kinds with integer pointer columns; spec dictionaries are assembled automatic < built-in < user; the result-type rule equals the documented table on the full (type x kind) grid; the spec loader is not memoised. The arithmetic of numpy_groupies and the pointer kernels is not decided.",
+        ref="DESIGN.md §4 C11",
+        note="Third-party aggregation semantics are trusted.",
+    ),
+    "C19": dict(
+        technique="value-/control-dependence analysis (abstract interpreter with dependence sets) over the static DAG per interval, regime columns bound to scenarios",
+        text="Two shape clauses are decided for all four employee contributions on every interval since 2015: with marginal employment the contribution has no dependence on the gross wage at all; with regular employment the wage reaches the contribution by value only through a rule returning min(wage, ceiling) whose ceiling is wage-independent - i.e. the contribution is constant above the assessment ceiling. Monotonicity, continuity at the zone boundary and the share identity are not decided.",
+        ref="DESIGN.md §4 C19",
+        note="The wage sweep is over employees: self-employed and pensioner flags are bound to False (an early retiree's pension is cut by earnings, which is outside the property's quantifier).",
+    ),
+    "C20": dict(
+        technique="syntax-directed must-call analysis with interprocedural summaries; guard-dominance check of narrowing conversions; foreign-key table agreement",
+        text="Decides that validation cannot be bypassed: the first use of the data runs the three validators on every path (DataFrame input also the duplicate-column check), type conversion and the missing-column check precede the DAG call; every validator raises under a condition on its argument and the foreign-key check loops over the whole table; every pointer column a grouping dereferences and every pointer named in the property is in that table; float->int and ->bool conversions are dominated by their losslessness tests, object and bool->float input raise, no except swallows; successful conversions always reach warnings.warn. Numeric losslessness of the tests themselves and the order-dependent joint-assessment check are not decided.",
+        ref="DESIGN.md §4 C20",
+        note="Anchored on functions the test-suite imports by name.",
+    ),
+})
 NOT_APPLICABLE = {
     "C04": "Compares values of two runs under different target sets / debug options; the only structural handle (non-interference of `targets` with node definitions) lives in dict comprehensions keyed by computed strings and in the third-party `dags` package - no necessary condition that is both statically checkable and robust to behaviour-preserving refactoring was found (DESIGN.md §6).",
     "C12": "Whether the row scans in groupings.py compute the partition the unit definitions prescribe, for every pointer graph and row order, is a property of a data-dependent algorithm over runtime values; it needs execution or model checking, not static analysis (DESIGN.md §6). Structural by-products are decided under C15, C17 and C20.",
